@@ -88,8 +88,40 @@ def dir_items(draw, depth, full, gopher_ok, toplevel, max_items=5, kinds=None):
     return items
 
 
-def site(full=False, gopher_ok=True, depth=2, max_items=5):
-    return dir_items(depth, full, gopher_ok, True, max_items)
+_VIRTUAL_KINDS = ("mbox", "maildir", "exec")
+
+
+def reserve_virtual_separators(items):
+    """'?' and '|' separate a real selector from virtual arguments (handlers/virtual.py); a mailbox or
+    script whose own path contains one cannot be addressed.  Replace them in the names of virtual-capable
+    objects and of their ancestor directories.  Returns True if the subtree holds such an object."""
+    has = False
+    seen = {n for n, _ in items}
+    for ent in items:
+        name, it = ent
+        sub = False
+        if it["kind"] in _VIRTUAL_KINDS:
+            sub = True
+        elif it["kind"] in ("dir", "map", "zip"):
+            sub = reserve_virtual_separators(it["items"])
+        if sub and ("?" in name or "|" in name):
+            new = name.replace("?", "_").replace("|", "_")
+            while new in seen:
+                new = "v" + new
+            seen.add(new)
+            ent[0] = new
+        has = has or sub
+    return has
+
+
+def site(full=False, gopher_ok=True, depth=2, max_items=5, virtual_seps=False):
+    s = dir_items(depth, full, gopher_ok, True, max_items)
+    if virtual_seps:
+        return s
+    def fix(items):
+        reserve_virtual_separators(items)
+        return items
+    return s.map(fix)
 
 
 def _zip_members(items, prefix=""):
